@@ -560,8 +560,7 @@ Proof.
   - unfold create_u. destruct (if r_id (fill_times now v) =? 0 then None else lookup t _) as [old|].
     + destruct (rule_fires ru old && _); [exact Hwf|now apply create_wf].
     + destruct (email_clash t _ _); [destruct (untargeted_nothing ru tgt); exact Hwf|now apply create_wf].
-  - destruct (where_on_nothing ru (map_keys ms)); [exact Hwf|].
-    cbn [res_tbl]. unfold create_maps_run. generalize (map_keys ms) as ks. intros ks.
+  - cbn [res_tbl]. unfold create_maps_run. generalize (map_keys ms) as ks. intros ks.
     assert (G : forall l t0 a, wf t0 -> wf (fst (fold_left (fun acc m => let r := create_map (fst acc) now ru ks m in
                 (res_tbl r, snd acc + res_ra r)) l (t0, a)))).
     { induction l as [|m l IH]; intros t0 a W; cbn [fold_left fst snd]; [exact W|]. apply IH. now apply create_map_wf. }
